@@ -1,7 +1,8 @@
 """C10 - RDF export is faithful and imports back unchanged.
 
 Input engine: documents of the value / attribute / tree layers and lists of 1-3 documents x
-serialisations {xml, nt, json-ld, turtle, n3} x sub-classing {on, off, custom map} x entry points;
+serialisations {xml, nt, json-ld, turtle, n3} x sub-classing {on, off, custom map} x entry points; layer W: one
+writer / reader object used for several exports while the documents are edited in between;
 graph shape against ref/rdf_shape.py (on the writer's graph and on the re-parsed text), import
 compared by snapshot projection (ids, names, types, definitions, references, units,
 uncertainties, value origins, dtypes, values in order; sibling order projected away)."""
@@ -16,6 +17,8 @@ PROP = "C10"
 LEVEL = "model_checking"
 RULE = ("value lists of length <=2 over the atoms of every dtype, every RDF-carried attribute x every text atom, all forests "
         "with <=N Sections, lists of 1-3 documents; x 5 serialisations x sub-classing on/off/custom x 3 entry pairs; "
+        "one writer and one reader used for export / edit / export[/ edit / export] sequences over every kind of edit "
+        "(attributes, values, Sections and Properties added / removed, writer.docs changed) x pairs of entry points; "
         "non-trivial = at least one Property value or optional attribute was exported")
 WATCHDOG_S = 60
 
@@ -89,7 +92,196 @@ def gen_cases(tier):
               docs.doc_of([rt.S("s", "t", repository="https://example.org/other.xml")], repository=url)]
     cases.append({"layer": "D", "spec": shared[0], "more": shared[1:], "tags": {"documents": "shared-repository"},
                   "fmts": FORMATS, "entries": ["string", "file"], "sub": ["on", "off"]})
+    # control characters and unusual line ends: every serialisation that can hold them (XML 1.0 has no form for U+0001 / U+000B)
+    for a, fmts in (("a\rb", FORMATS), ("a\r\nb", FORMATS), ("a\x7fb", FORMATS), ("a\x85b", FORMATS), ("a\u2028b", FORMATS),
+                    ("a\x0bb", FORMATS[1:]), ("a\x01b", FORMATS[1:]), ("a\x0cb\x1f", FORMATS[1:])):
+        cases.append({"layer": "V", "spec": docs.simple_doc(rt.P("p", ["k", a], "string")), "fmts": fmts, "entries": ["string", "file"],
+                      "sub": ["on"], "tags": {"dtype": "string", "atoms": [repr("k"), repr(a)], "n_values": 2}})
+        cases.append({"layer": "A", "spec": rt.attr_doc("section", "definition", a), "fmts": fmts, "entries": ["string", "file"],
+                      "sub": ["on"], "tags": {"element": "section", "attr": "definition", "atoms": [repr(a)]}})
+    cases.extend(layer_writer_state(tier))
     return cases
+
+
+# --------------------------------------------------------------------------- layer W: state a writer / reader carries across calls
+#
+# One RDFWriter (and one RDFReader) is used for a sequence of exports while the documents are worked on in between:
+# export, edit, export[, edit, export].  Every export is judged against the documents as they are at the time of the call.
+# An edit is a list of steps; a step addresses an object of the documents the writer was created with by
+# "at" = [index of the document, Section name, Section name, ...] and, for a Property, "prop" = its name.
+
+def _tree_base():
+    return docs.doc_of([
+        rt.S("s0", "t", definition="first definition",
+             props=[rt.P("p", [1, 2], "int", unit="mV"), rt.P("q", ["x", "y"], "string"), rt.P("e", [], "int")],
+             secs=[rt.S("sub", "analysis", props=[rt.P("f", [0.5, 1.5], "float", uncertainty=0.25, definition="pdef")])]),
+        rt.S("s1", "cell")], author="A. U. Thor", version="1.0")
+
+
+def _second_doc():
+    return docs.doc_of([rt.S("s0", "analysis", props=[rt.P("p", [10], "int")])], author="second author", version="2.0",
+                       date={"date": "1999-12-31"})
+
+
+def _new_doc(tag):
+    return docs.doc_of([rt.S("n" + tag, "cell", definition="new " + tag, props=[rt.P("np", [tag], "string")])], author="new " + tag)
+
+
+def entity_edits():
+    """(label, steps, sub-classing modes), simplest first."""
+    D, S0, SUB, S1 = [0], [0, "s0"], [0, "s0", "sub"], [0, "s1"]
+
+    def st(at, attr, value, prop=None):
+        return {"op": "set", "at": at, "prop": prop, "attr": attr, "value": value}
+
+    def vals(op, prop, arg, at=S0):
+        return {"op": op, "at": at, "prop": prop, "arg": arg}
+    one = ["on"]
+    every = ["on", "off", "custom"]
+    new_leaf = rt.S("added", "t")
+    new_tree = rt.S("added", "analysis", definition="added definition", props=[rt.P("ap", [1.5], "float", unit="s")],
+                    secs=[rt.S("deeper", "mytype")])
+    new_prop = rt.P("added", ["v", "w"], "string", unit="u", definition="added definition")
+    out = [
+        # attributes of the Document
+        ("document.author:changed", [st(D, "author", "Someone Else")], one),
+        ("document.author:unset", [st(D, "author", None)], one),
+        ("document.version:changed", [st(D, "version", "1.1")], one),
+        ("document.date:set", [st(D, "date", {"date": "2020-01-02"})], one),
+        # attributes of a Section
+        ("section.definition:changed", [st(S0, "definition", "second definition")], one),
+        ("section.definition:unset", [st(S0, "definition", None)], one),
+        ("section.definition:set", [st(SUB, "definition", "a definition")], one),
+        ("section.reference:set", [st(S0, "reference", "doi:10.1000/182")], one),
+        ("section.name:changed", [st(S0, "name", "renamed")], one),
+        ("section.type:changed", [st(S0, "type", "other")], every),
+        ("section.type:into-a-mapped-type", [st(S0, "type", "analysis")], every),
+        ("section.type:into-an-unmapped-type", [st(SUB, "type", "t")], every),
+        ("section.type:into-a-custom-mapped-type", [st(SUB, "type", "mytype")], every),
+        ("section.type:into-another-mapped-type", [st(S1, "type", "analysis/psth")], every),
+        # attributes of a Property
+        ("property.name:changed", [st(S0, "name", "renamed", "p")], one),
+        ("property.unit:changed", [st(S0, "unit", "V", "p")], one),
+        ("property.unit:unset", [st(S0, "unit", None, "p")], one),
+        ("property.unit:set", [st(S0, "unit", "u", "q")], one),
+        ("property.uncertainty:changed", [st(SUB, "uncertainty", 0.5, "f")], one),
+        ("property.uncertainty:changed-to-0", [st(SUB, "uncertainty", 0, "f")], one),
+        ("property.uncertainty:unset", [st(SUB, "uncertainty", None, "f")], one),
+        ("property.uncertainty:set", [st(S0, "uncertainty", 0.125, "p")], one),
+        ("property.definition:changed", [st(SUB, "definition", "another definition", "f")], one),
+        ("property.definition:unset", [st(SUB, "definition", None, "f")], one),
+        ("property.definition:set", [st(S0, "definition", "a definition", "p")], one),
+        ("property.reference:set", [st(S0, "reference", "pref", "p")], one),
+        ("property.value_origin:set", [st(S0, "value_origin", "file.dat", "p")], one),
+        ("property.dtype:changed", [st(S0, "dtype", "text", "q")], one),
+        # the values of a Property
+        ("values:replaced-same-length", [vals("values", "p", [3, 4])], one),
+        ("values:replaced-longer", [vals("values", "p", [3, 4, 5])], one),
+        ("values:replaced-shorter", [vals("values", "p", [7])], one),
+        ("values:replaced-text", [vals("values", "q", ["y", "x"])], one),
+        ("values:replaced-float", [vals("values", "f", [0.1], SUB)], one),
+        ("values:emptied", [vals("values", "p", [])], one),
+        ("values:filled", [vals("values", "e", [5, 6])], one),
+        ("values:append", [vals("append", "p", 3)], one),
+        ("values:append-text", [vals("append", "q", "z")], one),
+        ("values:append-to-empty", [vals("append", "e", 1)], one),
+        ("values:extend", [vals("extend", "p", [3, 4])], one),
+        ("values:remove", [vals("remove-value", "p", 1)], one),
+        ("values:item-assigned", [vals("setitem", "p", [0, 9])], one),
+        ("values:insert", [vals("insert-value", "p", [0, 0])], one),
+        ("values:several-properties", [vals("append", "p", 3), vals("values", "q", ["only"]), vals("values", "f", [2.5, 3.5, 4.5], SUB)], one),
+        # Sections added / removed
+        ("section:added-to-the-document", [{"op": "add-section", "at": D, "spec": new_leaf}], one),
+        ("section:added-to-a-section", [{"op": "add-section", "at": S0, "spec": new_leaf}], one),
+        ("section:added-to-a-leaf", [{"op": "add-section", "at": S1, "spec": new_leaf}], one),
+        ("section:subtree-added", [{"op": "append-section", "at": SUB, "spec": new_tree}], every),
+        ("section:inserted-first", [{"op": "insert-section", "at": D, "spec": new_tree}], one),
+        ("section:leaf-removed", [{"op": "remove-section", "at": D, "name": "s1"}], one),
+        ("section:nested-removed", [{"op": "remove-section", "at": S0, "name": "sub"}], one),
+        ("section:subtree-removed", [{"op": "remove-section", "at": D, "name": "s0"}], one),
+        ("section:replaced-by-one-of-the-same-name", [{"op": "remove-section", "at": D, "name": "s1"},
+                                                      {"op": "add-section", "at": D, "spec": rt.S("s1", "t", definition="the other s1")}], one),
+        # Properties added / removed
+        ("property:added", [{"op": "add-property", "at": S0, "spec": new_prop}], one),
+        ("property:added-to-an-empty-section", [{"op": "append-property", "at": S1, "spec": new_prop}], one),
+        ("property:added-without-values", [{"op": "add-property", "at": SUB, "spec": rt.P("added", [], "string")}], one),
+        ("property:inserted-first", [{"op": "insert-property", "at": S0, "spec": new_prop}], one),
+        ("property:removed", [{"op": "remove-property", "at": S0, "name": "p"}], one),
+        ("property:last-removed", [{"op": "remove-property", "at": SUB, "name": "f"}], one),
+        ("property:empty-removed", [{"op": "remove-property", "at": S0, "name": "e"}], one),
+        ("property:replaced-by-one-of-the-same-name", [{"op": "remove-property", "at": S0, "name": "p"},
+                                                       {"op": "add-property", "at": S0, "spec": rt.P("p", [1, 2], "int", unit="mV")}], one),
+    ]
+    return out
+
+
+def docs_edits(listed):
+    """Edits of `writer.docs` itself; `listed`: the writer was created with a list of two documents."""
+    change_old = {"op": "set", "at": [0, "s0"], "prop": None, "attr": "definition", "value": "second definition"}
+    out = [
+        ("docs:appended", [{"op": "docs-append", "spec": _new_doc("a")}]),
+        ("docs:inserted-first", [{"op": "docs-insert", "spec": _new_doc("a")}]),
+        ("docs:replaced", [{"op": "docs-replace", "index": 0, "spec": _new_doc("a")}]),
+        ("docs:other-list-assigned", [{"op": "docs-assign", "keep": False, "specs": [_new_doc("a")]}]),
+        ("docs:extended-list-assigned", [{"op": "docs-assign", "keep": True, "specs": [_new_doc("a"), _new_doc("b")]}]),
+        ("docs:appended+section.definition:changed", [{"op": "docs-append", "spec": _new_doc("a")}, change_old]),
+        ("docs:appended-twice", [{"op": "docs-append", "spec": _new_doc("a")}, {"op": "docs-append", "spec": _new_doc("b")}]),
+    ]
+    if listed:
+        out += [("docs:removed", [{"op": "docs-remove", "index": 0}]),
+                ("docs:removed+section.definition:changed", [{"op": "docs-remove", "index": 1}, change_old]),
+                ("docs:reversed", [{"op": "docs-reverse"}])]
+    return out
+
+
+def two_edits():
+    """Two edits with an export after each: back to the first state, the same edit again, another kind of edit."""
+    S0 = [0, "s0"]
+
+    def st(value):
+        return {"op": "set", "at": S0, "prop": None, "attr": "definition", "value": value}
+    app = {"op": "append", "at": S0, "prop": "p", "arg": 3}
+    return [
+        ("section.definition:changed;changed-back", [[st("second definition")], [st("first definition")]]),
+        ("section.definition:changed;changed-again", [[st("second definition")], [st("third definition")]]),
+        ("values:append;append", [[app], [dict(app, arg=4)]]),
+        ("values:append;remove", [[app], [{"op": "remove-value", "at": S0, "prop": "p", "arg": 3}]]),
+        ("section:added;removed", [[{"op": "add-section", "at": S0, "spec": rt.S("added", "t")}],
+                                   [{"op": "remove-section", "at": S0, "name": "added"}]]),
+        ("property:removed;added-again", [[{"op": "remove-property", "at": S0, "name": "p"}],
+                                          [{"op": "add-property", "at": S0, "spec": rt.P("p", [1, 2], "int", unit="mV")}]]),
+        ("docs:appended;removed", [[{"op": "docs-append", "spec": _new_doc("a")}], [{"op": "docs-remove", "index": 1}]]),
+        ("docs:appended;section.definition:changed", [[{"op": "docs-append", "spec": _new_doc("a")}], [st("second definition")]]),
+        ("section.definition:changed;docs:appended", [[st("second definition")], [{"op": "docs-append", "spec": _new_doc("a")}]]),
+    ]
+
+
+def call_sequences(tier, n):
+    """Sequences of n+1 export calls [entry, serialisation] around n edits."""
+    if tier == "quick":
+        pairs = [[["string", "turtle"], ["string", "turtle"]], [["string", "turtle"], ["string", "xml"]],
+                 [["string", "xml"], ["string", "json-ld"]], [["string", "nt"], ["file", "nt"]], [["file", "nt"], ["file", "nt"]],
+                 [["file", "xml"], ["string", "n3"]], [["str", "turtle"], ["str", "turtle"]], [["string", "turtle"], ["str", "turtle"]],
+                 [["str", "turtle"], ["string", "nt"]], [["graph", None], ["string", "turtle"]], [["string", "turtle"], ["graph", None]]]
+    else:
+        calls = [["string", f] for f in FORMATS] + [["file", f] for f in FORMATS] + [["str", "turtle"], ["graph", None]]
+        pairs = [[a, b] for a in calls for b in calls]
+    return [p + [p[i % 2] for i in range(n - 1)] for p in pairs]
+
+
+def layer_writer_state(tier):
+    for listed in (False, True):
+        more = [_second_doc()] if listed else []
+        tag = "list" if listed else "single"
+        for label, steps, sub in entity_edits():
+            yield {"layer": "W", "spec": _tree_base(), "more": more, "edits": [steps], "calls": call_sequences(tier, 1),
+                   "tags": {"edit": label, "documents": tag}, "sub": sub}
+        for label, steps in docs_edits(listed):
+            yield {"layer": "W", "spec": _tree_base(), "more": more, "edits": [steps], "calls": call_sequences(tier, 1),
+                   "tags": {"edit": label, "documents": tag}, "sub": ["on", "custom"]}
+    for label, groups in two_edits():
+        yield {"layer": "W", "spec": _tree_base(), "more": [], "edits": groups, "calls": call_sequences(tier, 2),
+               "tags": {"edit": label, "documents": "single"}, "sub": ["on"]}
 
 
 def run_case(case):
@@ -105,6 +297,8 @@ def _run(case, scratch):
     import rdflib
     from odml.tools.rdf_converter import RDFWriter, RDFReader
     from odml.tools.odmlparser import ODMLReader
+    if case["layer"] == "W":
+        return _run_writer_state(case, scratch)
     fails = []
     tags = case["tags"]
 
@@ -215,12 +409,182 @@ def _run(case, scratch):
     return {"failures": fails, "outcomes": ["exported"], "nontrivial": nontrivial, "execs": max(execs, 1)}
 
 
+# --------------------------------------------------------------------------- layer W: execution
+
+def _resolve(documents, step):
+    obj = documents[step["at"][0]]
+    for name in step["at"][1:]:
+        obj = obj.sections[name]
+    if step.get("prop"):
+        obj = obj.properties[step["prop"]]
+    return obj
+
+
+def apply_step(step, documents, wr):
+    """One step of an edit, through the public API of the library (documents: the objects the writer was created with)."""
+    op = step["op"]
+    if op == "set":
+        setattr(_resolve(documents, step), step["attr"], docs.dec(step["value"]))
+    elif op == "values":
+        _resolve(documents, step).values = [docs.dec(v) for v in step["arg"]]
+    elif op == "append":
+        _resolve(documents, step).append(docs.dec(step["arg"]))
+    elif op == "extend":
+        _resolve(documents, step).extend([docs.dec(v) for v in step["arg"]])
+    elif op == "remove-value":
+        _resolve(documents, step).remove(docs.dec(step["arg"]))
+    elif op == "setitem":
+        _resolve(documents, step)[step["arg"][0]] = docs.dec(step["arg"][1])
+    elif op == "insert-value":
+        _resolve(documents, step).insert(step["arg"][0], docs.dec(step["arg"][1]))
+    elif op == "add-section":
+        docs.build_section(step["spec"], _resolve(documents, step))
+    elif op == "append-section":
+        _resolve(documents, step).append(docs.build_section(step["spec"]))
+    elif op == "insert-section":
+        _resolve(documents, step).insert(0, docs.build_section(step["spec"]))
+    elif op == "add-property":
+        docs.build_property(step["spec"], _resolve(documents, step))
+    elif op == "append-property":
+        _resolve(documents, step).append(docs.build_property(step["spec"]))
+    elif op == "insert-property":
+        _resolve(documents, step).insert(0, docs.build_property(step["spec"]))
+    elif op == "remove-section":
+        parent = _resolve(documents, step)
+        parent.remove(parent.sections[step["name"]])
+    elif op == "remove-property":
+        parent = _resolve(documents, step)
+        parent.remove(parent.properties[step["name"]])
+    elif op == "docs-append":
+        wr.docs.append(docs.build(step["spec"]))
+    elif op == "docs-insert":
+        wr.docs.insert(0, docs.build(step["spec"]))
+    elif op == "docs-replace":
+        wr.docs[step["index"]] = docs.build(step["spec"])
+    elif op == "docs-remove":
+        del wr.docs[step["index"]]
+    elif op == "docs-reverse":
+        wr.docs.reverse()
+    elif op == "docs-assign":
+        wr.docs = (list(wr.docs) if step["keep"] else []) + [docs.build(sp) for sp in step["specs"]]
+    else:
+        raise env.HarnessError("unknown edit step %r" % op)
+
+
+def _run_writer_state(case, scratch):
+    import rdflib
+    from odml.tools.rdf_converter import RDFWriter, RDFReader
+    fails = []
+    outcomes = []
+    tags = case["tags"]
+    execs = 0
+
+    def fail(clause, position, call, earlier, observed=None, field=None, sub=None):
+        fails.append(report.failure("rdf", {
+            "clause": clause, "entry": "%s-of-a-used-writer" % call[0], "rdf_format": call[1], "subclassing": sub, "layer": "W",
+            "field": field, "edit": tags["edit"].split(":")[0], "position": position},
+            case, observed={"edit": tags["edit"], "documents": tags["documents"], "earlier_call": earlier, "what": observed}))
+
+    def subclass_fn(mode):
+        if mode == "off":
+            return None
+        table = dict(DEFAULT_SUBCLASSES)
+        if mode == "custom":
+            table.update(CUSTOM)
+        return lambda sec: table.get(sec.type)
+
+    for sub in case["sub"]:
+        for seq in case["calls"]:
+            try:
+                documents = [docs.build(s) for s in [case["spec"]] + case.get("more", [])]
+            except Exception as exc:
+                return {"failures": [], "outcomes": ["not-buildable:" + type(exc).__name__], "nontrivial": 0, "execs": 0}
+            arg = documents if len(documents) > 1 else documents[0]
+            if sub == "off":
+                wr = RDFWriter(arg, rdf_subclassing=False)
+            elif sub == "custom":
+                wr = RDFWriter(arg, custom_subclasses=dict(CUSTOM))
+            else:
+                wr = RDFWriter(arg)
+            rd = RDFReader()                 # one reader imports every export of the sequence
+            for pos, call in enumerate(seq):
+                earlier = seq[pos - 1] if pos else None
+                position = "first-call" if pos == 0 else "after-edit-%d" % pos
+                if pos:
+                    try:
+                        for step in case["edits"][pos - 1]:
+                            apply_step(step, documents, wr)
+                    except env.HarnessError:
+                        raise
+                    except Exception as exc:
+                        # the library refused the edit: nothing to export (the edits are the business of C03-C06)
+                        outcomes.append("edit-raises:%s:%s" % (tags["edit"], type(exc).__name__))
+                        break
+                now = list(wr.docs)          # what the writer is asked to export at the time of this call
+                before = [snapshot.snap(d, identity=True) for d in now]
+                want = sorted((project(snapshot.snap(d)) for d in now), key=lambda s: snapshot.canon(s["id"]))
+                entry, fmt = call
+                path = os.path.join(scratch, "out" + EXT[fmt]) if entry == "file" else None
+                try:
+                    if entry == "graph":
+                        graph, text = wr.convert_to_rdf(), None
+                    elif entry == "string":
+                        text = wr.get_rdf_str(fmt)
+                    elif entry == "str":
+                        text = str(wr)
+                    else:
+                        wr.write_file(path, fmt)     # the file of the earlier call, if any, is written over
+                        with open(path, encoding="utf-8") as fh:
+                            text = fh.read()
+                    execs += 1
+                except Exception as exc:
+                    fail("export-raises", position, call, earlier, "%s: %s" % (type(exc).__name__, str(exc)[:160]), sub=sub)
+                    break
+                if [snapshot.snap(d, identity=True) for d in now] != before:
+                    fail("export-changed-the-documents", position, call, earlier, sub=sub)
+                if text is None:
+                    for clause, detail in rdf_shape.violations(graph, now, subclass_fn(sub))[:2]:
+                        fail("graph-shape:" + clause, position, call, earlier, detail, sub=sub)
+                    continue
+                try:
+                    g2 = rdflib.Graph().parse(data=text, format=fmt)
+                    for clause, detail in rdf_shape.violations(g2, now, subclass_fn(sub))[:2]:
+                        fail("serialised-shape:" + clause, position, call, earlier, detail, sub=sub)
+                except Exception as exc:
+                    fail("serialised-text-not-parseable", position, call, earlier,
+                         "%s: %s" % (type(exc).__name__, str(exc)[:160]), sub=sub)
+                    continue
+                try:
+                    back = rd.from_file(path, fmt) if entry == "file" else rd.from_string(text, fmt)
+                    execs += 1
+                except Exception as exc:
+                    fail("import-raises", position, call, earlier, "%s: %s" % (type(exc).__name__, str(exc)[:160]), sub=sub)
+                    continue
+                if len(back) != len(now):
+                    fail("import-returns-another-number-of-documents", position, call, earlier, [len(back), len(now)], sub=sub)
+                    continue
+                got = sorted((project(snapshot.snap(d)) for d in back), key=lambda s: snapshot.canon(s["id"]))
+                if got != want:
+                    df = snapshot.diff(want, got)
+                    fail("imported-document-differs", position, call, earlier, snapshot.short(df), field=rt.field_of(df[0]), sub=sub)
+            else:
+                outcomes.append("exported-again-after:" + tags["edit"].split(":")[0])
+    return {"failures": fails, "outcomes": sorted(set(outcomes)), "nontrivial": 1, "execs": max(execs, 1)}
+
+
 def check(tier):
     run = report.Run(PROP, tier, LEVEL, RULE, assumptions=[
         "repository round trip and hasFileName are not judged (statement silent); cardinalities, dependencies, links are not "
         "carried by RDF and not compared",
         "the uncertainty is compared as a number; an attribute holding the empty string counts as unset",
         "sibling order is projected away (children sorted by id)",
+        "layer W (one writer / reader object used for several exports while the documents are edited in between): the "
+        "documents a call exports are the entries of writer.docs at the time of the call, as they are then; every export of "
+        "the sequence is judged with the same shape reference and import comparison as a first export",
+        "not enumerated, outside the statement: a tuple of documents (the constructor documents a list or one document; the "
+        "quantifier speaks of documents and lists), text with control characters XML 1.0 cannot hold (no RDF/XML text can "
+        "carry them and the statement has no 'must raise' clause; C07 counts them among the failure causes of serialisation; "
+        "nt, json-ld, turtle and n3 carry them)",
     ])
     cases = gen_cases(tier)
     layers = {}
@@ -229,7 +593,8 @@ def check(tier):
     for k, v in sorted(layers.items()):
         run.layer(k, documents=v)
     run.bounds = {"value_list_length": 2, "max_sections": 3 if tier == "quick" else 5, "documents_per_export": 3,
-                  "serialisations": FORMATS}
+                  "serialisations": FORMATS, "edits_between_exports_of_one_writer": 2,
+                  "call_sequences_per_edit": len(call_sequences(tier, 1))}
     par.run_cases(run, "checks.c10", cases, nchunks=par.JOBS * 16)
     return run.finish(reproduce=lambda f: replay(f))
 
